@@ -76,6 +76,10 @@ def run(ctx):
     # appended, and the refusal of a pre-image whose own type differs from the requested one (shared with C01)
     from . import c01 as _c01
     _c01.check_sig_modes(ctx, "C11.6")
+    # scriptCode and every script inside the hashed outputs are length-prefixed by compact_size_uint: its decision table over the
+    # prefix boundaries (252 / 253, 65535 / 65536, ...) is an obligation here too (shared with C05)
+    from . import c05 as _c05
+    _c05.check_writer(ctx, "C11.7")
     ev = ctx.evaluator()
     fd = ctx.fn("bits.bips.bip143.witness_digest")
     sd = ev.run(fd)
